@@ -170,3 +170,19 @@ def build_all(tier='quick', seed=0, only=None):
         if only and cid not in only: continue
         out.append(f())
     return out
+
+
+def interstitial_extras(tier='quick', seed=0):
+    """high-symmetry interstitial networks with many sites per cell (degenerate relaxation modes followed by distinct slower
+    ones): octahedral + tetrahedral sites of BCC (9 sites) and FCC (3 sites).  Same entry format as builders()."""
+    from onsager import crystal
+    C = crystal.Crystal
+    def bccOT():
+        bcc = C.BCC(1., 'Fe')
+        cr = bcc.addbasis(bcc.Wyckoffpos(np.array([0.5, 0.5, 0.])) + bcc.Wyckoffpos(np.array([0.5, 0.25, 0.])), ['C'])
+        return _entry('BCC+oct+tet', cr, chem=1, nshell=1, interstitial=True)
+    def fccOT():
+        fcc = C.FCC(1., 'Ni')
+        cr = fcc.addbasis(fcc.Wyckoffpos(np.array([0.5, 0.5, 0.5])) + fcc.Wyckoffpos(np.array([0.25, 0.25, 0.25])), ['H'])
+        return _entry('FCC+oct+tet', cr, chem=1, nshell=1, interstitial=True)
+    return [('BCC+oct+tet', bccOT), ('FCC+oct+tet', fccOT)]
